@@ -1,4 +1,4 @@
-import Pyrealb.Model.Coord
+import Pyrealb.Model.CoordSpec
 /-! Helper lemmas for C09 (coordination). -/
 namespace Pyrealb.Coord
 open Pyrealb Pyrealb.Gen.CoordConsts
@@ -7,6 +7,8 @@ open Pyrealb Pyrealb.Gen.CoordConsts
 
 /-- no token is the empty string -/
 def Clean (l : List Str) : Prop := ∀ x ∈ l, x ≠ []
+
+instance (l : List Str) : Decidable (Clean l) := by unfold Clean; infer_instance
 
 theorem removeEmpty_clean {l : List Str} (h : Clean l) : removeEmpty l = l := by
   unfold removeEmpty
@@ -83,8 +85,8 @@ theorem gnpLoop_spec (c : List Str) (ms : List Member) (hk : ∀ m ∈ ms, m.kin
       acc'.nb = acc.nb + ms.length ∧
       (acc'.n = some plural ↔ acc.n = some plural ∨ ∃ m ∈ ms, m.n = some plural) ∧
       (acc'.g = some masc ↔ acc.g = some masc ∨ ∃ m ∈ ms, m.g = some masc) ∧
-      (acc'.pe ≤ acc.pe ∧ (∀ m ∈ ms, ∀ k, m.pe = some (.int k) → acc'.pe ≤ k) ∧
-        (acc'.pe = acc.pe ∨ ∃ m ∈ ms, m.pe = some (.int acc'.pe))) := by
+      (acc'.pe ≤ acc.pe ∧ (∀ m ∈ ms, ∀ k, m.peN = some k → acc'.pe ≤ k) ∧
+        (acc'.pe = acc.pe ∨ ∃ m ∈ ms, m.peN = some acc'.pe)) := by
   induction ms with
   | nil =>
     intro acc acc' h
@@ -105,8 +107,8 @@ theorem gnpLoop_spec (c : List Str) (ms : List Member) (hk : ∀ m ∈ ms, m.kin
       have step : a.nb = acc.nb + 1 ∧
           (a.n = some plural ↔ acc.n = some plural ∨ m.n = some plural) ∧
           (a.g = some masc ↔ acc.g = some masc ∨ m.g = some masc) ∧
-          (a.pe ≤ acc.pe ∧ (∀ k, m.pe = some (.int k) → a.pe ≤ k) ∧
-            (a.pe = acc.pe ∨ m.pe = some (.int a.pe))) := by
+          (a.pe ≤ acc.pe ∧ (∀ k, m.peN = some k → a.pe ≤ k) ∧
+            (a.pe = acc.pe ∨ m.peN = some a.pe)) := by
         unfold gnpStep at hs
         simp only [hm, if_true] at hs
         have hg : ((if m.g = some masc then some masc
@@ -125,23 +127,27 @@ theorem gnpLoop_spec (c : List Str) (ms : List Member) (hk : ∀ m ∈ ms, m.kin
           rw [hpe] at hs
           simp only [Except.ok.injEq] at hs
           subst hs
-          exact ⟨rfl, hn, hg, Nat.le_refl _, by simp, Or.inl rfl⟩
-        | some p =>
-          cases p with
-          | str x => rw [hpe] at hs; cases hs
-          | int k =>
-            rw [hpe] at hs
+          exact ⟨rfl, hn, hg, Nat.le_refl _, by simp [Member.peN, hpe], Or.inl rfl⟩
+        | some v =>
+          rw [hpe] at hs
+          simp only at hs
+          cases hv : v.nat? with
+          | none => rw [hv] at hs; cases hs
+          | some k =>
+            rw [hv] at hs
             simp only [Except.ok.injEq] at hs
             subst hs
+            have hpn : m.peN = some k := by simp [Member.peN, hpe, hv]
             refine ⟨rfl, hn, hg, ?_, ?_, ?_⟩
             · show (if k < acc.pe then k else acc.pe) ≤ acc.pe
               split <;> omega
             · intro k' hk'
+              rw [hpn] at hk'
               cases hk'
               show (if k < acc.pe then k else acc.pe) ≤ k
               split <;> omega
-            · show (if k < acc.pe then k else acc.pe) = acc.pe ∨ some (PeVal.int k) = some (PeVal.int (if k < acc.pe then k else acc.pe))
-              by_cases hlt : k < acc.pe <;> simp [hlt]
+            · show (if k < acc.pe then k else acc.pe) = acc.pe ∨ m.peN = some (if k < acc.pe then k else acc.pe)
+              by_cases hlt : k < acc.pe <;> simp [hlt, hpn]
       obtain ⟨s1, s2, s3, s4, s5, s6⟩ := step
       refine ⟨by simp [h1, s1]; omega, ?_, ?_, ?_, ?_, ?_⟩
       · rw [h2, s2]
@@ -180,14 +186,15 @@ theorem gnpLoop_spec (c : List Str) (ms : List Member) (hk : ∀ m ∈ ms, m.kin
           · exact Or.inr ⟨m, by simp, by rw [h6]; exact s6⟩
         · exact Or.inr ⟨m', by simp [hm'], hp⟩
 
-/-- the loop fails exactly on a person given as a string (counted members) -/
-theorem gnpLoop_ok_of_int (c : List Str) (ms : List Member) (hp : ∀ m ∈ ms, ∀ x, m.pe ≠ some (.str x)) :
+/-- the loop does not fail when every stated person is a number or a digit string -/
+theorem gnpLoop_ok_of_valid (c : List Str) (ms : List Member)
+    (hp : ∀ m ∈ ms, ∀ v, m.pe = some v → ∃ k, v.nat? = some k) :
     ∀ acc, ∃ acc', gnpLoop c acc ms = .ok acc' := by
   induction ms with
   | nil => intro acc; exact ⟨acc, rfl⟩
   | cons m ms ih =>
     intro acc
-    have hms : ∀ m' ∈ ms, ∀ x, m'.pe ≠ some (.str x) := fun m' h' => hp m' (by simp [h'])
+    have hms : ∀ m' ∈ ms, ∀ v, m'.pe = some v → ∃ k, v.nat? = some k := fun m' h' => hp m' (by simp [h'])
     rw [gnpLoop_append]
     have : ∃ a, gnpStep c acc m = .ok a := by
       unfold gnpStep
@@ -195,10 +202,10 @@ theorem gnpLoop_ok_of_int (c : List Str) (ms : List Member) (hp : ∀ m ∈ ms, 
       · simp only [hm, if_true]
         cases hpe : m.pe with
         | none => exact ⟨_, rfl⟩
-        | some p =>
-          cases p with
-          | int k => exact ⟨_, rfl⟩
-          | str x => exact absurd hpe (hp m (by simp) x)
+        | some v =>
+          obtain ⟨k, hk⟩ := hp m (by simp) v hpe
+          simp only [hk]
+          exact ⟨_, rfl⟩
       · simp only [hm, if_false]; exact ⟨_, rfl⟩
     obtain ⟨a, ha⟩ := this
     rw [ha]
@@ -242,5 +249,221 @@ theorem propagateFrom_spec (allowed : List Str) (kinds : List Str) :
       intro j
       rw [key j, hm j]
       simp [hl']
+
+end Pyrealb.Coord
+
+namespace Pyrealb.Coord
+open Pyrealb Pyrealb.Gen.CoordConsts
+
+/-! ### the comma loop equals the positional specification -/
+
+theorem specFrom_cons (pt : Str → Str) (ctoks : Option (List Str)) (n k : Nat) (m : Member) (ms : List Member) :
+    specFrom pt ctoks n k (m :: ms) = pieceAt pt ctoks n k m ++ specFrom pt ctoks n (k + 1) ms := by
+  simp [specFrom, List.zipIdx_cons]
+
+theorem lastToks_cons2 (pt : Str → Str) (m m' : Member) (r : List Member) :
+    lastToks pt (m :: m' :: r) = lastToks pt (m' :: r) := rfl
+
+/-- the comma rule of the code yields the specified “member with its comma” -/
+theorem realWith_appendComma (pt : Str → Str) (m : Member) : realWith pt m (appendComma m.a) = withComma pt m := by
+  unfold withComma
+  cases ha : m.a with
+  | none => simp [appendComma, alone, realWith, ha, afterOf, appendLast_append]
+  | some l =>
+    by_cases hc : comma ∈ l
+    · simp [appendComma, hc, alone, realWith, ha]
+    · simp [appendComma, hc, alone, realWith, ha, afterOf, appendLast_append]
+
+theorem loop_spec (pt : Str → Str) (ctoks : Option (List Str)) (ms : List Member) :
+    ∀ k n, ms ≠ [] → k + ms.length = n →
+      loopWith appendComma pt ctoks.isNone ms ++ ctoks.getD [] ++ lastToks pt ms = specFrom pt ctoks n k ms := by
+  induction ms with
+  | nil => intro k n h; exact absurd rfl h
+  | cons m tl ih =>
+    intro k n _ hn
+    cases tl with
+    | nil =>
+      simp only [List.length_cons, List.length_nil] at hn
+      have h1 : k + 1 = n := by omega
+      have h2 : ¬ (k + 2 < n) := by omega
+      have h3 : ¬ (k + 1 < n) := by omega
+      simp [loopWith, lastToks, specFrom, pieceAt, h1, h2]
+    | cons m' r =>
+      have ih' := ih (k + 1) n (by simp) (by simp only [List.length_cons] at hn ⊢; omega)
+      simp only [List.length_cons] at hn
+      have h1 : ¬ (k + 1 = n) := by omega
+      have h3 : k + 1 < n := by omega
+      rw [specFrom_cons, ← ih', lastToks_cons2]
+      have hpiece : realWith pt m (if (ctoks.isNone || !r.isEmpty) = true then appendComma m.a else m.a)
+          = pieceAt pt ctoks n k m := by
+        unfold pieceAt
+        simp only [h1, if_false, List.nil_append]
+        by_cases hc : ctoks = none
+        · subst hc
+          simp [h3, realWith_appendComma]
+        · have hcn : ctoks.isNone = false := by
+            cases ctoks with
+            | none => exact absurd rfl hc
+            | some _ => rfl
+          cases r with
+          | nil =>
+            have h2 : ¬ (k + 2 < n) := by simp only [List.length_nil] at hn; omega
+            simp [hcn, hc, h2, alone]
+          | cons m'' r' =>
+            have h2 : k + 2 < n := by simp only [List.length_cons] at hn; omega
+            simp [hcn, h2, realWith_appendComma]
+      show (realWith pt m (if (ctoks.isNone || !r.isEmpty) = true then appendComma m.a else m.a)
+            ++ loopWith appendComma pt ctoks.isNone (m' :: r)) ++ ctoks.getD [] ++ lastToks pt (m' :: r) = _
+      rw [hpiece]
+      simp [List.append_assoc]
+
+/-- every piece of a clean coordination is clean -/
+theorem clean_alone (pt : Str → Str) (m : Member) (h : Clean m.toks) : Clean (alone pt m) :=
+  clean_appendLast _ h
+
+theorem clean_realWith (pt : Str → Str) (m : Member) (a : Option (List Str)) (h : Clean m.toks) :
+    Clean (realWith pt m a) := clean_appendLast _ h
+
+theorem clean_loopWith (cf : Option (List Str) → Option (List Str)) (pt : Str → Str) (b : Bool) :
+    ∀ (ms : List Member), (∀ m ∈ ms, Clean m.toks) → Clean (loopWith cf pt b ms)
+  | [], _ => by intro x hx; simp [loopWith] at hx
+  | [_], _ => by intro x hx; simp [loopWith] at hx
+  | m :: m' :: r, h => by
+    unfold loopWith
+    exact clean_append (clean_realWith pt m _ (h m (by simp)))
+      (clean_loopWith cf pt b (m' :: r) (fun x hx => h x (by simp [hx])))
+
+theorem clean_lastToks (pt : Str → Str) :
+    ∀ (ms : List Member), (∀ m ∈ ms, Clean m.toks) → Clean (lastToks pt ms)
+  | [], _ => by intro x hx; simp [lastToks] at hx
+  | [m], h => by simpa [lastToks] using clean_alone pt m (h m (by simp))
+  | m :: m' :: r, h => by
+    rw [lastToks_cons2]
+    exact clean_lastToks pt (m' :: r) (fun x hx => h x (by simp [hx]))
+
+theorem lastToks_ne_nil (pt : Str → Str) :
+    ∀ (ms : List Member), ms ≠ [] → (∀ m ∈ ms, m.toks ≠ []) → lastToks pt ms ≠ []
+  | [], h, _ => absurd rfl h
+  | [m], _, h => by simpa [lastToks, alone, realWith] using appendLast_ne_nil _ (h m (by simp))
+  | m :: m' :: r, _, h => by
+    rw [lastToks_cons2]
+    exact lastToks_ne_nil pt (m' :: r) (by simp) (fun x hx => h x (by simp [hx]))
+
+/-- `removeEmpty` deletes a block of empty tokens lying between clean material -/
+theorem removeEmpty_mid (A E B : List Str) (hA : Clean A) (hB : Clean B) (hE : ∀ x ∈ E, x = [])
+    (hne : B ≠ []) : removeEmpty (A ++ E ++ B) = A ++ B := by
+  unfold removeEmpty
+  have fA : A.filter (fun t => decide (t ≠ [])) = A := List.filter_eq_self.mpr (by intro x hx; simpa using hA x hx)
+  have fB : B.filter (fun t => decide (t ≠ [])) = B := List.filter_eq_self.mpr (by intro x hx; simpa using hB x hx)
+  have fE : E.filter (fun t => decide (t ≠ [])) = [] := List.filter_eq_nil_iff.mpr (by intro x hx; simpa using hE x hx)
+  simp only [List.filter_append, fA, fB, fE, List.append_nil]
+  have : A ++ B ≠ [] := by simp [hne]
+  simp [this]
+
+theorem lastMember_some : ∀ (ms : List Member), ms ≠ [] → ∃ m, lastMember ms = some m ∧ m ∈ ms ∧ lastToks pt ms = alone pt m
+  | [], h => absurd rfl h
+  | [m], _ => ⟨m, rfl, by simp, rfl⟩
+  | m :: m' :: r, _ => by
+    obtain ⟨x, h1, h2, h3⟩ := lastMember_some (pt := pt) (m' :: r) (by simp)
+    exact ⟨x, h1, by simp only [List.mem_cons] at h2 ⊢; exact Or.inr h2, h3⟩
+
+/-- with consistent relations the dependency loop is the generic loop, without warnings -/
+theorem depLoop_consistent (pt : Str → Str) (deprel : Str) (b : Bool) :
+    ∀ (ms : List Member), (∀ m ∈ ms, m.rel = coordStr ∨ m.rel = deprel ∨ deprel = coordStr) →
+      depLoop pt deprel b ms = (loopWith appendComma pt b ms, 0)
+  | [], _ => rfl
+  | [_], _ => rfl
+  | m :: m' :: r, h => by
+    have ih := depLoop_consistent pt deprel b (m' :: r) (fun x hx => h x (by simp [hx]))
+    unfold depLoop loopWith
+    rw [ih]
+    have hm := h m (by simp)
+    have : ∀ a, depInner pt deprel m a = (realWith pt m a, 0) := by
+      intro a
+      unfold depInner
+      rcases hm with hm | hm | hm
+      · simp [hm, coordStr]
+      · by_cases hc : m.rel = ['c','o','o','r','d']
+        · simp [hc]
+        · simp [hm]
+      · by_cases hc : m.rel = ['c','o','o','r','d']
+        · simp [hc]
+        · simp [hc, hm, coordStr]
+    simp [this]
+
+/-! ### findGenderNumberPerson against the declarative specification -/
+
+theorem findGNP_spec (c : List Str) (andComb : Bool) (ms : List Member) (hk : ∀ m ∈ ms, m.kind ∈ c)
+    (gn : GNP) (h : findGNP c andComb ms = .ok gn) :
+    (gn.n = some plural ↔ SpecPlural andComb ms) ∧ (gn.g = some masc ↔ SpecMasc ms) ∧ IsMinPerson gn.pe ms
+      ∧ gn.nb = ms.length := by
+  unfold findGNP at h
+  cases hl : gnpLoop c {} ms with
+  | error e => rw [hl] at h; cases h
+  | ok acc =>
+    rw [hl] at h
+    simp only [Except.ok.injEq] at h
+    obtain ⟨h1, h2, h3, h4, h5, h6⟩ := gnpLoop_spec c ms hk {} acc hl
+    subst h
+    simp only [Nat.zero_add] at h1
+    refine ⟨?_, ?_, ?_, h1⟩
+    · unfold SpecPlural
+      by_cases hc : acc.nb > 1 ∧ andComb = true
+      · have h2' : 2 ≤ ms.length := by omega
+        have hb : andComb = true := hc.2
+        rw [if_pos hc]
+        simp only [true_iff]
+        exact Or.inl ⟨h2', hb⟩
+      · simp only [hc, if_false]
+        rw [h2]
+        have : ¬ (2 ≤ ms.length ∧ andComb = true) := by
+          intro hh; exact hc ⟨by omega, hh.2⟩
+        simp [this]
+    · rw [h3]; simp [SpecMasc]
+    · refine ⟨h4, h5, ?_⟩
+      rcases h6 with h6 | h6
+      · exact Or.inl h6
+      · exact Or.inr h6
+
+theorem findGNP_ok (c : List Str) (andComb : Bool) (ms : List Member)
+    (hp : ∀ m ∈ ms, ∀ v, m.pe = some v → ∃ k, v.nat? = some k) :
+    ∃ gn, findGNP c andComb ms = .ok gn := by
+  obtain ⟨acc, h⟩ := gnpLoop_ok_of_valid c ms hp {}
+  unfold findGNP
+  rw [h]
+  exact ⟨_, rfl⟩
+
+end Pyrealb.Coord
+
+namespace Pyrealb.Coord
+
+theorem afterCoord_pe (o : Out) (p : Nat) (h : o.peng.peN = some p) : (afterCoord o).pe = p := by
+  simp only [afterCoord, verbView, Rec.peN] at h ⊢
+  simp [h]
+
+theorem afterCoord_pe_none (o : Out) (h : o.peng.pe = none) : (afterCoord o).pe = 3 := by
+  simp [afterCoord, verbView, Rec.peN, h]
+
+theorem afterCoord_pl (o : Out) : (afterCoord o).pl = true ↔ o.peng.n = some plural := by
+  cases hon : o.peng.n with
+  | none => simp [afterCoord, verbView, hon, sing, plural]
+  | some x => simp [afterCoord, verbView, hon]
+
+end Pyrealb.Coord
+
+namespace Pyrealb.Coord
+
+theorem gnpLoop_uncounted (c : List Str) : ∀ (ms : List Member) (acc : Acc), (∀ m ∈ ms, m.kind ∉ c) →
+    gnpLoop c acc ms = .ok acc
+  | [], _, _ => rfl
+  | m :: ms, acc, h => by
+    have hm : m.kind ∉ c := h m (by simp)
+    rw [gnpLoop_append]
+    simp only [gnpStep, hm, if_false]
+    exact gnpLoop_uncounted c ms acc (fun x hx => h x (by simp [hx]))
+
+theorem findGNP_uncounted (c : List Str) (b : Bool) (ms : List Member) (h : ∀ m ∈ ms, m.kind ∉ c) :
+    findGNP c b ms = .ok { g := none, n := none, pe := 3, nb := 0 } := by
+  simp [findGNP, gnpLoop_uncounted c ms {} h]
 
 end Pyrealb.Coord
